@@ -342,7 +342,18 @@ func runC08(c *ctx, r *Report) error {
 	if !c.quick {
 		nV = 4000
 	}
-	return visitTie(c, r, nV, false, nil)
+	if err := visitTie(c, r, nV, false, nil); err != nil {
+		return err
+	}
+	// AL.Props.C08Parse: in the model of the parser every map of the AST whose names are case-insensitive (jobs, inputs,
+	// secrets, outputs, with, env, matrix rows and nested matrix mappings, services, permissions) is keyed by the
+	// lower-cased name. A differing AST on some source is the parser departing from that (all keys of the mutants are
+	// re-spelled, repeated in another letter case, …).
+	per := 4
+	if !c.quick {
+		per = 200
+	}
+	return pwStandard(c, r, "ast", per, true)
 }
 
 type relErr struct{}
